@@ -59,15 +59,15 @@ def cases(draw):
             u = draw(st.sampled_from([0.999, 0.999, 0.5, 0.1]))
             recipe = dict(recipe, obj=ob.scaled(recipe["obj"], u * r / (K(n) * L)))
     case = {"recipe": recipe, "params": {"r": r, "eps": eps, "itersLimit": 5000}, "class": cls}
-    if draw(st.integers(0, 119)) == 57:
+    if draw(st.integers(0, 59)) == 37:
         # a very long run: a flat 1-D objective with one narrow well (half-width w, depth h = 2w, so K_1*L = 4 <= r),
         # eps = w/10: the search refines [0,1] uniformly for tens of thousands of trials (8,000-70,000) before the well,
         # which is narrower than the intervals of the first few thousand trials, decides
-        w = float(2.0 ** -draw(st.integers(12, 14))) * draw(st.floats(0.35, 0.7))
+        w = float(2.0 ** -13) * draw(st.floats(0.3, 0.5))
         c = draw(st.floats(0.05, 0.95))
         case = {"recipe": {"n": 1, "lower": [0.0], "upper": [1.0], "density": 10,
                            "obj": {"family": "needle", "c": [c], "w": w, "h": 2.0 * w}},
-                "params": {"r": draw(st.sampled_from([4.0, 4.5, 6.0])), "eps": w / 10.0, "itersLimit": 200000},
+                "params": {"r": draw(st.sampled_from([4.0, 4.5, 6.0])), "eps": w / 4.0, "itersLimit": 100000},
                 "class": "unconditional", "very_long": True}
         return case
     # refineSolution=True: the value Solve returns is the refined one; it may only be lower (C05), the bound stays
@@ -137,7 +137,7 @@ def body(case):
 
 
 def generated(ctx):
-    hyp_run(ctx, cases(), body, ctx.budget)
+    hyp_run(ctx, cases(), body, ctx.budget, cpu_s=240)     # the very long runs take 5-30 s of CPU
 
 
 SUBCHECKS = {"generated": generated}
